@@ -729,7 +729,13 @@ func cmdCheck(args []string) int {
 		// name the obligation after the function it concerns: "<pkg>.<Func>#verifiable" (the message starts with
 		// the function's name); anything else keeps the generic name
 		name := fmt.Sprintf("engine.error.%d", i)
-		if j := strings.Index(er, ": "); j > 0 && !strings.ContainsAny(er[:j], " \t") && strings.Contains(er[:j], ".") {
+		if strings.HasPrefix(er, "asm ") {
+			// "asm <routine>/idx=<k>: ..." -> asm.<routine>/idx=<k>#verifiable
+			if j := strings.Index(er, ": "); j > 4 && !strings.ContainsAny(er[4:j], " \t") {
+				er2 := "asm." + er[4:j]
+				name = er2 + "#verifiable"
+			}
+		} else if j := strings.Index(er, ": "); j > 0 && !strings.ContainsAny(er[:j], " \t") && strings.Contains(er[:j], ".") {
 			name = er[:j] + "#verifiable"
 			errSeen[name]++
 			if n := errSeen[name]; n > 1 {
